@@ -141,6 +141,17 @@ def gen_regular(rng):
         'circle' if circle else 'ellipse'
 
 
+def detect_repaired():
+    """which variant of bezier_unit_tangent's fallback the tree under test contains: the repaired
+    one returns the direction of travel (-1+1j)/sqrt(2) on the witness of the sign defect"""
+    from svgpathtools import CubicBezier
+    try:
+        u = complex(CubicBezier(0j, 0j, -1 + 1j, -2 + 0j).unit_tangent(0.0))
+    except Exception:
+        return False
+    return abs(u - complex(-1, 1) / math.sqrt(2)) < 1e-9
+
+
 def build(kind, params):
     from svgpathtools import Line, QuadraticBezier, CubicBezier, Arc
     if kind == 'line': return Line(*params)
@@ -205,21 +216,24 @@ OKDEF = r'''
 From SVP Require Import Model.Bezier Model.Tangent.
 Definition N := NumB.
 Definition T := NumTB.
+(* which fallback the tree under test has at a zero of the derivative (detected by the harness
+   on the witness CubicBezier(0,0,-1+1j,-2).unit_tangent(0)) *)
+Definition RP : bool := @RP@.
 Inductive sg := SL (s e : Cplx bf) | SQ (s c e : Cplx bf) | SC (s c1 c2 e : Cplx bf)
               | SA (rx ry rot th de : bf).
 Definition tol9 : bf := bf_of 4503599627 (-52).     (* 1.0000000000e-9 *)
 Definition m_ut (g : sg) (t : bf) : res (Cplx bf) :=
   match g with
   | SL s e => Val (line_unit_tangent N T s e t)
-  | SQ s c e => quad_unit_tangent N T s c e t
-  | SC s c1 c2 e => cubic_unit_tangent N T s c1 c2 e t
+  | SQ s c e => quad_unit_tangent N T RP s c e t
+  | SC s c1 c2 e => cubic_unit_tangent N T RP s c1 c2 e t
   | SA rx ry rot th de => Val (arc_unit_tangent N T rx ry rot th de t)
   end.
 Definition m_nm (g : sg) (t : bf) : res (Cplx bf) :=
   match g with
   | SL s e => Val (line_normal N T s e t)
-  | SQ s c e => quad_normal N T s c e t
-  | SC s c1 c2 e => cubic_normal N T s c1 c2 e t
+  | SQ s c e => quad_normal N T RP s c e t
+  | SC s c1 c2 e => cubic_normal N T RP s c1 c2 e t
   | SA rx ry rot th de => Val (arc_normal N T rx ry rot th de t)
   end.
 Definition m_k (g : sg) (t : bf) : res bf :=
@@ -540,6 +554,9 @@ def run(rep, tier, seed, replay=None):
     rng = common.mkrng(seed, 'C15')
     with common.Scratch() as tmp:
         info = common.std_static(rep, 'C15', GEN_GROUPS, AGREE, tmp)
+        repaired = detect_repaired()
+        rep.cov['variant'] = ('repaired fallback (direction of the first non-vanishing derivative): model flag true'
+                              if repaired else 'pinned fallback (rational_limit + principal sqrt): model flag false')
         n_reg, n_sing = (420, 144) if tier == 'quick' else (4200, 1440)
         if info['agree_failed']:
             n_reg *= 4
@@ -586,13 +603,15 @@ def run(rep, tier, seed, replay=None):
             # generic (non-dyadic) coordinates with the zero at t > 0: the zero tests g(t0) == 0 of
             # rational_limit are decided by rounding noise both in binary64 and in the 120-bit model:
             # judged at implementation level only
-            if mode.endswith('/generic') and t != 0.0:
+            # (the repaired fallback has no polynomial zero tests: compared like every other case)
+            if mode.endswith('/generic') and t != 0.0 and not repaired:
                 stats['coq_skipped_generic_t1'] += 1
                 continue
             is_sing = kind != 'arc' and kind != 'line' and bez_deriv_exact(params, t, 1) == (0, 0)
             cases.append(case_term(kind, params, t, o, pobs, singular=is_sing, generic=mode.endswith('/generic')))
             meta.append((kind, params, t, mode, o))
-        fails, errors = common.run_cases(tmp, 'From SVP Require Import Base.BigF.\n', 'casety', OKDEF, cases,
+        fails, errors = common.run_cases(tmp, 'From SVP Require Import Base.BigF.\n', 'casety',
+                                         OKDEF.replace('@RP@', 'true' if repaired else 'false'), cases,
                                          shard=40, timeout=1500)
         for e in errors:
             rep.violation('correspondence case file failed to evaluate', {'kind': 'cases', 'error': e},
